@@ -207,6 +207,28 @@ def fileAppend (st : OStream) (data : Option Bytes) (size : Nat) (os : OS) : Err
 def fileFlush (st : OStream) (os : OS) : Err × OStream × OS :=
   realizeSparse st os
 
+/-- One client operation on a file ostream. -/
+inductive OOp where
+  | data (d : Bytes)     -- append(d, |d|)
+  | hole (n : Nat)       -- append(NULL, n)
+  | flush
+  deriving DecidableEq, Repr
+
+def ostreamStep (st : OStream) (op : OOp) (os : OS) : Err × OStream × OS :=
+  match op with
+  | .data d => fileAppend st (some d) d.length os
+  | .hole n => fileAppend st none n os
+  | .flush => fileFlush st os
+
+/-- A client that stops at the first failing call (as every caller in the tools does): status, index of the
+failing operation (or the number of operations), final state. -/
+def runOOps : Nat → OStream → List OOp → OS → (Err × Nat) × OStream × OS
+  | idx, o, [], os => ((.ok, idx), o, os)
+  | idx, o, op :: ops, os =>
+    match ostreamStep o op os with
+    | (.ok, o', os') => runOOps (idx + 1) o' ops os'
+    | (e, o', os') => ((e, idx), o', os')
+
 /-! ### istream.c: the buffered file input stream -/
 
 /-- State of a `file_istream_t` together with the byte source behind its descriptor. -/
